@@ -188,3 +188,92 @@ Theorem strip_punct_chars : forall U steps s x, In x (strip_punct U steps s) -> 
 Proof.
   intros U steps s x H. unfold strip_punct in H. apply in_strip in H. eapply in_sub_chain; exact H.
 Qed.
+
+(* ---- strip_punct only deletes: the result is a SUBSEQUENCE of the input (same characters, same order) ---- *)
+From EV Require Import Proofs.ResolveSpec.
+
+Lemma sublist_pre {A} (l c d : list A) : sublist c d -> sublist c (l ++ d).
+Proof. intro H; induction l as [|x l IH]; cbn; [exact H | apply sub_skip; exact IH]. Qed.
+
+Lemma sublist_app {A} (a b c d : list A) : sublist a b -> sublist c d -> sublist (a ++ c) (b ++ d).
+Proof.
+  intros H1 H2; induction H1 as [l | x a l _ IH | x a l _ IH]; cbn.
+  - apply sublist_pre; exact H2.
+  - apply sub_take; exact IH.
+  - apply sub_skip; exact IH.
+Qed.
+
+Lemma sublist_same {A} (l : list A) : sublist l l.
+Proof. induction l as [|x l IH]; [apply sub_nil | apply sub_take; exact IH]. Qed.
+
+Lemma sublist_tr {A} (b c : list A) : sublist b c -> forall a, sublist a b -> sublist a c.
+Proof.
+  intro H; induction H as [l | x b l _ IH | x b l _ IH]; intros a Ha.
+  - inversion Ha; subst. apply sub_nil.
+  - inversion Ha; subst; [apply sub_nil | apply sub_take; apply IH; assumption | apply sub_skip; apply IH; assumption].
+  - apply sub_skip; apply IH; exact Ha.
+Qed.
+
+Lemma sub_piece_sub : forall s g i j c,
+  (forall n a b, In (n, (a, b)) c -> i <= a /\ a <= b /\ b <= j) ->
+  sublist (sub_piece s g c) (slice s i j).
+Proof.
+  intros s g i j c Hc. unfold sub_piece. destruct g as [n|]; [|apply sub_nil].
+  destruct (cap_get n c) as [[a b]|] eqn:Hg; [|apply sub_nil].
+  apply cap_get_in in Hg. destruct (Hc _ _ _ Hg) as (H1 & H2 & H3).
+  rewrite <- (slice_app s i a j) by lia. rewrite <- (slice_app s a b j) by lia.
+  apply sublist_pre. rewrite <- (app_nil_r (slice s a b)) at 1.
+  apply sublist_app; [apply sublist_same | apply sub_nil].
+Qed.
+
+Lemma sub_build_sub : forall s g ms pos,
+  ms_ok s ms -> chain scan_step ms ->
+  (match ms with (i, _, _) :: _ => pos <= i | [] => pos <= length s end) ->
+  sublist (sub_build s g pos ms) (slice s pos (length s)).
+Proof.
+  intros s g ms; induction ms as [|[[i j] c] rest IH]; intros pos Hok Hch Hpos.
+  - cbn. apply sublist_same.
+  - cbn [sub_build].
+    destruct (Hok i j c (or_introl eq_refl)) as (Hij & Hjs & Hc).
+    rewrite <- (slice_app s pos i (length s)) by lia.
+    rewrite <- (slice_app s i j (length s)) by lia.
+    apply sublist_app; [apply sublist_same|].
+    apply sublist_app; [apply sub_piece_sub; exact Hc|].
+    apply IH.
+    + intros i' j' c' Hin. apply (Hok i' j' c'). right; exact Hin.
+    + destruct rest as [|b rest']; [exact I|]. cbn in Hch. destruct Hch as [_ Hch]. exact Hch.
+    + destruct rest as [|[[i' j'] c'] rest']; [exact Hjs|].
+      cbn in Hch. destruct Hch as [[Hs _] _]. cbn in Hs. exact Hs.
+Qed.
+
+Lemma re_sub_sub : forall U r g s, sublist (re_sub U r g s) s.
+Proof.
+  intros U r g s. unfold re_sub.
+  assert (H : sublist (sub_build s g 0 (finditer U false s r)) (slice s 0 (length s)));
+    [|rewrite slice_full in H; exact H].
+  apply sub_build_sub.
+  - intros i j c Hin. destruct (finditer_sound U false s r i j c Hin) as (_ & H1 & H2 & H3). auto.
+  - apply finditer_chain.
+  - destruct (finditer U false s r) as [|[[i j] c] ?]; lia.
+Qed.
+
+Lemma sub_chain_sub : forall U steps s, sublist (sub_chain U steps s) s.
+Proof.
+  intros U steps; induction steps as [|[r g] rest IH]; intros s; [apply sublist_same|].
+  change (sub_chain U ((r, g) :: rest) s) with (sub_chain U rest (re_sub U r g s)).
+  apply (sublist_tr _ _ (re_sub_sub U r g s)). apply IH.
+Qed.
+
+Lemma strip_sub : forall P s, sublist (strip P s) s.
+Proof.
+  intros P s. unfold strip.
+  destruct (lstrip_suffix P s) as [z Hz]. destruct (rstrip_prefix P (lstrip P s)) as [y Hy].
+  rewrite Hz at 2. apply sublist_pre. rewrite Hy at 2.
+  rewrite <- (app_nil_r (rstrip P (lstrip P s))) at 1. apply sublist_app; [apply sublist_same | apply sub_nil].
+Qed.
+
+Theorem strip_punct_sublist : forall U steps s, sublist (strip_punct U steps s) s.
+Proof.
+  intros U steps s. unfold strip_punct.
+  apply (sublist_tr _ _ (sub_chain_sub U steps s)). apply strip_sub.
+Qed.
